@@ -181,6 +181,15 @@ pub fn check(t: &Trace<'_>, out: &mut CaseOut) -> bool {
                     }
                     continue;
                 }
+                // a request that went out under another QoS than the one due on this connection is not
+                // found above (wrong packet shape, no entry in the model): it is still on the wire
+                let pkt = pkt.or_else(|| {
+                    if matches!(op.outcome, Outcome::Ok(_)) && spec.topic.len() > 2 {
+                        during.iter().rev().find(|p| matches!(&p.pkt, CPacket::Publish { topic, payload, qos, .. } if *topic == spec.topic && *payload == body && *qos != q)).copied()
+                    } else {
+                        None
+                    }
+                });
                 let Some(p) = pkt else { continue };
                 out.count("publishes_compared", 1);
                 if let CPacket::Publish { dup, qos, retain, topic, props, payload, .. } = &p.pkt {
